@@ -40,13 +40,24 @@ def log(msg):
     print(msg, flush=True)
 
 
+HARNESS_AS_LIMIT = 24 << 30     # address-space cap for harness processes (code under test may run away)
+
+
+def _limit_harness():
+    import resource
+    resource.setrlimit(resource.RLIMIT_AS, (HARNESS_AS_LIMIT, HARNESS_AS_LIMIT))
+
+
 def sh(cmd, cwd=None, env=None, timeout=None, check=True, capture=True):
     e = dict(os.environ)
     if env:
         e.update(env)
+    # the conformance harness runs code under test in-process: a change that makes it allocate without
+    # bound must end that process (reported as a tool error), not the machine
+    pre = _limit_harness if (not isinstance(cmd, str) and str(cmd[0]).startswith(BIN)) else None
     try:
         p = subprocess.run(cmd, cwd=cwd, env=e, timeout=timeout, shell=isinstance(cmd, str),
-                           stdout=subprocess.PIPE if capture else None,
+                           stdout=subprocess.PIPE if capture else None, preexec_fn=pre,
                            stderr=subprocess.STDOUT if capture else None, text=True)
     except subprocess.TimeoutExpired as ex:
         raise ToolError("timeout after %ss: %s" % (timeout, cmd)) from ex
@@ -176,8 +187,10 @@ class TlcResult:
 
 
 def tlc(module, cfg, work, workers=8, extra=None, env=None, timeout=1800, xmx="8g", trace=None,
-        coverage=False):
-    """Run TLC on spec/<module>.tla with spec/<cfg>; returns TlcResult. Tool failure -> ToolError."""
+        coverage=False, budget=None):
+    """Run TLC on spec/<module>.tla with spec/<cfg>; returns TlcResult. Tool failure -> ToolError.
+    budget (seconds): a breadth-first search that is still running then is stopped; invariants and action
+    properties are evaluated on the fly, so the result stands for the states visited (r.partial = True)."""
     meta = work.path("tlc-%s-%d" % (os.path.basename(cfg).replace(".cfg", ""), int(time.time() * 1000) % 100000))
     jopts = "-Xss1g"
     e = {}
@@ -196,11 +209,38 @@ def tlc(module, cfg, work, workers=8, extra=None, env=None, timeout=1800, xmx="8
     cfgp = cfg if os.path.isabs(cfg) else os.path.join(SPEC, cfg)
     cmd += ["-config", cfgp, os.path.join(SPEC, module + ".tla")]
     t = time.time()
-    p = sh(cmd, cwd=work.dir, env=e, timeout=timeout, check=False)
-    wall = time.time() - t
-    shutil.rmtree(meta, ignore_errors=True)
+    if budget:
+        ee = dict(os.environ)
+        ee.update(e)
+        pr = subprocess.Popen(cmd, cwd=work.dir, env=ee, stdout=subprocess.PIPE, stderr=subprocess.STDOUT, text=True)
+        try:
+            out, _ = pr.communicate(timeout=budget)
+            rc, partial = pr.returncode, False
+        except subprocess.TimeoutExpired:
+            pr.kill()
+            out, _ = pr.communicate()
+            rc, partial = 0, True
+        wall = time.time() - t
+        shutil.rmtree(meta, ignore_errors=True)
+        r = TlcResult(out or "", rc, wall)
+        r.partial = partial
+        if partial:
+            m = re.findall(r"Progress\(\d+\) at [^:]*:\d+:\d+: ([\d,]+) states generated.*?([\d,]+) distinct states found", out or "")
+            if m:
+                r.generated = int(m[-1][0].replace(",", ""))
+                r.distinct = int(m[-1][1].replace(",", ""))
+            d = re.findall(r"Progress\((\d+)\)", out or "")
+            r.depth = int(d[-1]) if d else 0
+            r.ok = not r.errors and not r.violated
+            return r
+        p = subprocess.CompletedProcess(cmd, rc, out, None)
+    else:
+        p = sh(cmd, cwd=work.dir, env=e, timeout=timeout, check=False)
+        wall = time.time() - t
+        shutil.rmtree(meta, ignore_errors=True)
     out = p.stdout or ""
     r = TlcResult(out, p.returncode, wall)
+    r.partial = False
     # rc 0: ok; 12/13: safety/liveness violation; others: tool problems
     if p.returncode not in (0, 10, 11, 12, 13):
         raise ToolError("TLC failed rc=%d on %s/%s\n%s" % (p.returncode, module, cfg, out[-3000:]))
